@@ -605,9 +605,93 @@ class Generator:
         return h.hexdigest()
 
     # ------------------------------------------------------------------
-    def generate(self, unit=None, vacuity=False):
-        """unit: set of property ids whose functions are verified (None = all).
+    KNOWN_TYPES = {'Matrix': 'Matrix', 'Mat64': 'Matrix', 'Vector': 'Vector', 'Vec64': 'Vector', 'Banded': 'Banded', 'Tridiagonal': 'Tridiagonal',
+                   'Sparse': 'Sparse', 'Polynomial': 'Polynomial', 'Complex': 'Complex', 'Cmplx': 'Complex', 'Mesh1D': 'Mesh1D',
+                   'Mesh2D': 'Mesh2D', 'Newton': 'Newton'}
+    OPS = [(r'[^=!<>+\-*/]=[^=]', None), (r'\+=', 'add_assign'), (r'-=', 'sub_assign'), (r'\*=', 'mul_assign'), (r'/=', 'div_assign'),
+           (r'\+(?!=)', 'add'), (r'(?<![eE(,=<>+\-*/\s])\s*-(?![=>])', 'sub'), (r'\*(?!=)', 'mul'), (r'/(?![=/*])', 'div'),
+           (r'(?:^|[(,=<>+\-*/\s])-\s*[\w(]', 'neg'), (r'\[', 'index'), (r'\]\s*[-+*/]?=(?!=)', 'index_mut'),
+           (r'==', 'eq'), (r'!=', 'ne'), (r'[<>]=?', 'partial_cmp')]
+
+    def _types_in(self, text):
+        return {self.KNOWN_TYPES[w] for w in re.findall(r'\b[A-Z][A-Za-z0-9]*\b', text) if w in self.KNOWN_TYPES}
+
+    def closure_of(self, unit):
+        """Functions under contract that the unit's functions call, transitively (an over-approximation by method /
+        function / operator NAME, filtered by the container types the caller mentions; element types - Complex and
+        the primitive trait impls of traits.rs - are always admissible).  They are verified in the unit's file and a
+        failure in one of them counts for the property: a property depends on the helpers its routines call."""
+        byname = {}
+        for sp in self.specs.values():
+            if sp.name and not sp.external:
+                byname.setdefault(sp.name, []).append(sp)
+        # source text of every function that has a contract
+        bodies = {}
+        def walk(items, rel, header):
+            s = self.srcs[rel]
+            for it in items:
+                if it.kind == 'impl':
+                    walk(it.children, rel, rsparse.norm_ws(it.name))
+                elif it.kind == 'trait':
+                    walk(it.children, rel, 'trait ' + it.name)
+                elif it.kind == 'fn' and it.body_open is not None:
+                    sp = self.specs.get((rel, header, it.name))
+                    if sp is not None:
+                        m = self.masks[rel]
+                        txt = ''.join(c if m[it.code_start + i] else ' ' for i, c in enumerate(s[it.code_start:it.end]))
+                        bodies[sp.ident] = (sp, header, txt)
+        for rel in SRC_ORDER:
+            walk(self.items[rel], rel, '-')
+        def callees(sp, header, txt):
+            names = set(re.findall(r'(?:\.|::|\b)([a-z_][a-z0-9_]*)\s*(?:::<[^>()]*>)?\(', txt))
+            body = txt[txt.find('{'):] if '{' in txt else txt
+            for pat, nm in self.OPS:
+                if nm and re.search(pat, body):
+                    names.add(nm)
+            if 'clone' in names or '.clone()' in txt:
+                names.add('clone')
+            types = self._types_in(header + ' ' + txt)
+            generic = bool(re.search(r'<\s*T\b', header))
+            res = []
+            for nm in names:
+                for c in byname.get(nm, []):
+                    if c.ident == sp.ident:
+                        continue
+                    ctypes = self._types_in(c.impl)
+                    if not ctypes:                      # trait impls for primitives (traits.rs), free functions
+                        if c.file == 'traits.rs' or c.file == sp.file:
+                            res.append(c)
+                        continue
+                    # the type the callee is implemented FOR decides (`impl Tr<Rhs> for Self` / `impl Self`);
+                    # for a primitive Self (`impl Mul<Matrix<f64>> for f64`) the right-hand side type does
+                    selfpart = c.impl.rsplit(' for ', 1)[1] if ' for ' in c.impl else c.impl
+                    stypes = self._types_in(selfpart) or ctypes
+                    if stypes <= types:
+                        res.append(c)
+                    elif stypes == {'Complex'} and generic:
+                        res.append(c)
+            return res
+        start = [sp for sp in self.specs.values() if sp.name and set(sp.props) & set(unit)]
+        seen = {sp.ident for sp in start}
+        todo = list(start)
+        clos = set()
+        while todo:
+            sp = todo.pop()
+            b = bodies.get(sp.ident)
+            if not b:
+                continue
+            for c in callees(*b):
+                if c.ident not in seen:
+                    seen.add(c.ident)
+                    clos.add(c.ident)
+                    todo.append(c)
+        return clos
+
+    def generate(self, unit=None, vacuity=False, closure=True):
+        """unit: set of property ids whose functions are verified (None = all); with `closure` the functions they call
+        (transitively, closure_of) are verified as well.
         Returns dict(text, linemap, labels, fns, dropped, rewrites)."""
+        self.closure = self.closure_of(unit) if (unit is not None and closure) else set()
         out = Out()
         self.rewrites = []
         self.fninfo = {}     # fnid -> dict(spec, props, verified, file, src_lines)
@@ -787,7 +871,8 @@ class Generator:
             return
         sp.used = True
         fnid = sp.ident
-        verified = (not sp.external) and (unit is None or bool(set(sp.props) & set(unit)))
+        tagged = unit is None or bool(set(sp.props) & set(unit))
+        verified = (not sp.external) and (tagged or fnid in getattr(self, 'closure', set()))
         rw = Rewriter(sp, self.rewrites)
         if fn.body_open is None:
             raise ExtractError('%s: function %s has no body' % (rel, fn.name))
@@ -804,7 +889,7 @@ class Generator:
         out.splice(sp.sig, fnid, 'sig')
         start_line = s.count('\n', 0, fn.start) + 1
         end_line = s.count('\n', 0, fn.end) + 1
-        self.fninfo[fnid] = {'props': sp.props, 'verified': verified, 'file': rel,
+        self.fninfo[fnid] = {'props': sp.props, 'verified': verified, 'file': rel, 'closure': verified and not tagged,
                              'src_lines': [start_line, end_line], 'external': sp.external,
                              'origin': sp.origin, 'has_requires': bool(re.search(r'\brequires\b', sp.sig)),
                              'vac_exempt': 'const' in getattr(fn, 'quals', [])}
